@@ -7,7 +7,9 @@ import "github.com/mlange-42/arche/ecs"
 // HooksOn reports whether the verif hooks are compiled in.
 const HooksOn = true
 
-func hookInv(w *ecs.World) error              { return w.VerifCheckInvariants() }
-func hookShape(w *ecs.World) (string, string) { return w.VerifShape() }
-func hookIDValue(id ecs.ID) int               { return ecs.VerifIDValue(id) }
-func hookTables(w *ecs.World) (int, int, int) { return w.VerifTableStats() }
+func hookInv(w *ecs.World) error                            { return w.VerifCheckInvariants() }
+func hookShape(w *ecs.World) (string, string)               { return w.VerifShape() }
+func hookIDValue(id ecs.ID) int                             { return ecs.VerifIDValue(id) }
+func hookTables(w *ecs.World) (int, int, int)               { return w.VerifTableStats() }
+func hookLocate(w *ecs.World, e ecs.Entity) (int, int, int) { return w.VerifLocate(e) }
+func hookCapSum(w *ecs.World) int                           { return w.VerifCapSum() }
